@@ -153,7 +153,7 @@ def evaluate(mod, cases, timeout_s, nproc):
     # implementation is deterministic and survives the retry, a transient stall (solver library, machine load) does not
     retry = [k for k, r in enumerate(impl_res)
              if isinstance(r, dict) and ("timeout" in r or str(r.get("crash", "")).startswith("worker died"))]
-    if retry and len(retry) <= 12:
+    if retry and len(retry) <= 3:
         again = implrun.run(mod.impl, [cases[k] for k in retry], timeout_s=2 * timeout_s, nproc=min(4, nproc))
         for k, r in zip(retry, again):
             impl_res[k] = r
